@@ -12,7 +12,6 @@ import (
 	"sort"
 	"strconv"
 	"strings"
-	"syscall"
 	"testing"
 	"time"
 
@@ -21,14 +20,6 @@ import (
 	"github.com/pilosa/pilosa/test"
 	"pgregory.net/rapid"
 )
-
-// vc26Inconclusive ends the process in a way the driver reports as inconclusive (worker death), never as a violation.
-func vc26Inconclusive(format string, args ...interface{}) {
-	fmt.Printf("INCONCLUSIVE (environment): "+format+"\n", args...)
-	os.Stdout.Sync()
-	syscall.Kill(os.Getpid(), syscall.SIGKILL)
-	time.Sleep(time.Hour)
-}
 
 func vc26StartCluster(n int) test.Cluster {
 	var lastErr error
@@ -40,7 +31,7 @@ func vc26StartCluster(n int) test.Cluster {
 		lastErr = err
 		time.Sleep(500 * time.Millisecond)
 	}
-	vc26Inconclusive("cannot start a %d-node cluster on loopback: %v", n, lastErr)
+	vgpInconclusive("cannot start a %d-node cluster on loopback: %v", n, lastErr)
 	return nil
 }
 
@@ -212,7 +203,7 @@ func (s *vc26Sys) setup(index string) {
 				break
 			}
 			if time.Now().After(deadline) {
-				vc26Inconclusive("%s: schema of %s did not reach every node (create errors: %v)", s.name, index, errs)
+				vgpInconclusive("%s: schema of %s did not reach every node (create errors: %v)", s.name, index, errs)
 			}
 			time.Sleep(2 * time.Millisecond)
 		}
